@@ -664,8 +664,9 @@ def rule_l1(repo, res):
     if len(inner) == 1:
         for h in inner[0].handlers:
             sets = {norm(s.targets[0]): norm(s.value) for s in ast.walk(h) if isinstance(s, ast.Assign)}
-            ok = sets.get("encodes") == "False" and "loads" not in sets
-            res.oblige("L1", f"pvl_flavor: `except {norm(h.type) if h.type else '<bare>'}` round the dump sets encodes = False and never loads", ok=ok)
+            from . import flow
+            ok = sets.get("encodes") == "False" and "loads" not in sets and flow.always_assigns(h.body, "encodes", "False")
+            res.oblige("L1", f"pvl_flavor: `except {norm(h.type) if h.type else '<bare>'}` round the dump sets encodes = False on every path and never loads", ok=ok)
             if not ok:
                 res.add(Finding("L1", "pvl_validate.pvl_flavor", "dump handler", "a handler round the dump call assigns `loads` or "
                                 "does not set encodes = False: an encoding failure is reported as a loading failure (or success)",
@@ -679,10 +680,12 @@ def rule_l1(repo, res):
                             where=f"pvl/pvl_validate.py:{fn.lineno}"))
     for h in t.handlers:
         sets = {norm(s.targets[0]): norm(s.value) for s in ast.walk(h) if isinstance(s, ast.Assign)}
-        ok = sets.get("loads") == "False" and "encodes" not in sets
-        res.oblige("L1", f"pvl_flavor: outer `except {norm(h.type) if h.type else '<bare>'}` sets loads = False only", ok=ok)
+        from . import flow
+        ok = sets.get("loads") == "False" and "encodes" not in sets and flow.always_assigns(h.body, "loads", "False")
+        res.oblige("L1", f"pvl_flavor: outer `except {norm(h.type) if h.type else '<bare>'}` sets loads = False on every path, and nothing else", ok=ok)
         if not ok:
-            res.add(Finding("L1", "pvl_validate.pvl_flavor", "load handler", "an outer handler does not set loads = False (or sets encodes)",
+            res.add(Finding("L1", "pvl_validate.pvl_flavor", "load handler", "an outer handler does not set loads = False on every path through it (or sets encodes): "
+                            "the verdict stays None and the report has no row for it",
                             where=f"pvl/pvl_validate.py:{h.lineno}"))
     has_bare = any(h.type is None or norm(h.type) in ("Exception", "BaseException") for h in t.handlers)
     res.oblige("L1", "pvl_flavor: an outer catch-all makes a report for every file (non-pvl exceptions => does NOT load)", ok=has_bare)
@@ -779,6 +782,42 @@ def rule_l1(repo, res):
 
 CONTAINER_CLASSES = {"PVLModule", "PVLGroup", "PVLObject", "PVLAggregation", "OrderedMultiDict", "PVLModuleNew", "PVLGroupNew",
                      "PVLObjectNew", "PVLAggregationNew", "PVLMultiDict"}
+
+
+def rule_mapping_iteration(repo, res):
+    """V4: the encoders (and the parser hooks) receive label containers as Mappings and go through them with
+    .items()/.keys()/.values().  Iterating the container object itself is family-dependent: the default
+    OrderedMultiDict yields (key, value) pairs, the multidict-based classes of pvl.new yield keys -- the same
+    method then works for one family and fails (or walks other things) for the other."""
+    n = 0
+    for base in ("PVLEncoder", "PVLParser"):
+        for c in repo.subclasses(base):
+            for m, fn in repo.classes[c].methods.items():
+                a = fn.args
+                mparams = set()
+                for p_ in a.posonlyargs + a.args + a.kwonlyargs:
+                    ann = norm(p_.annotation) if p_.annotation is not None else ""
+                    if "Mapping" in ann or "MutableMappingSequence" in ann or p_.arg in ("module", "group", "agg", "container"):
+                        mparams.add(p_.arg)
+                if not mparams:
+                    continue
+                iters = [(x, x.iter) for x in ast.walk(fn) if isinstance(x, (ast.For, ast.comprehension))]
+                for node, it in iters:
+                    if isinstance(it, ast.Call) and norm(it.func) in ("enumerate", "iter", "reversed", "list", "tuple", "sorted") and it.args:
+                        it = it.args[0]
+                    if isinstance(it, ast.Name) and it.id in mparams:
+                        n += 1
+                        res.oblige("V4", f"{c}.{m}: iteration over `{it.id}` goes through .items()/.keys()/.values()", ok=False)
+                        res.add(Finding("V4", f"{c}.{m}", f"iterates {it.id} itself",
+                                        f"{c}.{m} iterates its Mapping argument `{it.id}` directly (`{norm(node.target)} in {it.id}`): "
+                                        "OrderedMultiDict yields (key, value) pairs but the pvl.new containers (and every other "
+                                        "Mapping) yield keys, so the two families are written differently (or one of them fails)",
+                                        where=f"pvl/{repo.classes[c].module.name}.py:{getattr(node, 'lineno', fn.lineno)}"))
+                    elif isinstance(it, ast.Call) and isinstance(it.func, ast.Attribute) and isinstance(it.func.value, ast.Name) \
+                            and it.func.value.id in mparams and it.func.attr in ("items", "keys", "values"):
+                        n += 1
+                        res.oblige("V4", f"{c}.{m}: `{norm(it)}`", ok=True)
+    res.floor("iterations over Mapping arguments in encoders/parsers", n, 4)
 
 
 def rule_no_hardcoded_containers(repo, res):
